@@ -34,19 +34,21 @@ def main():
         mod.run(ctx)
         # Source pins (tools/srcpin.py): when a file this property is anchored in differs from the tree the thorough tier was
         # validated on and the seeded sample found nothing, the quick command goes on to the complete closed space.
-        if a.tier == "quick" and not ctx.violations and not os.environ.get("VERIF_NO_ESCALATE"):
+        if a.tier == "quick" and not getattr(ctx, "concrete", 0) and not os.environ.get("VERIF_NO_ESCALATE"):
             import srcpin
             hit = srcpin.affected(prop)
             if hit:
                 print(f"ESCALATE property={prop}: {len(hit)} anchored source file(s) changed ({', '.join(hit[:4])}"
                       f"{' …' if len(hit) > 4 else ''}); quick sample found nothing -> exploring the thorough space")
+                first = ctx
                 ctx = vlib.Ctx(prop, "thorough", seed)
                 ctx.escalated_from_quick = hit
                 mod.run(ctx)
+                ctx.violations = first.violations + ctx.violations
         # ... and, when the closed spaces still show nothing, to the neighbourhood of the changed code (tools/neighbour.py):
         # documents near those that execute the changed lines, on which the current tree and the validated sources behave
         # differently, judged by this property's own document-level oracle.
-        if not a.replay and not ctx.violations and not os.environ.get("VERIF_NO_ESCALATE") and not os.environ.get("VERIF_NB_CHILD"):
+        if not a.replay and not getattr(ctx, "concrete", 0) and not os.environ.get("VERIF_NO_ESCALATE") and not os.environ.get("VERIF_NB_CHILD"):
             import srcpin, neighbour, json
             hit = srcpin.affected(prop)
             if hit and prop in neighbour.SUPPORTED:
